@@ -585,4 +585,6 @@ def main(tier):
             "formulas: all listed programs of depth <= 2 (thorough 3) over the six connectives; operands: raw Boolean atoms and TaskStartAt / TaskPrecedence / TaskEndBefore / TasksDontOverlap with symbolic values",
             "completeness half is a quantified query (forall auxiliaries . not phi) decided by z3; tasks are two mandatory tasks with symbolic durations and a symbolic horizon",
             "force-apply counts enumerated 1..m+1 for m = 2, 3 optional constraints",
+            "class-generic twin builds on a concrete five-task problem (C18's sweep environment, one well-formed instance per class): optional may be left unapplied / optional + forced = mandatory (33 classes), operand of And / Or / Implies / IfThenElse in positive position = plain declaration (34 classes; quick: two wrappers); the solver decides over all schedules of that problem",
+            "operands whose encoding defines auxiliary variables: positive position checked, negative position is a recorded known finding (four formulas)",
         ])
